@@ -194,6 +194,9 @@ C13Step(s, t, ev) == UnsignedChangesNothing(s, t, ev)
 ------------------------------------------------------------------------------
 (* C14 *)
 NotHalted(s) == ~s.halted
+\* the one known way to halt the chain (DESIGN 0.3): governance changed the enterprise denomination while the
+\* locked-eFUND books (kept in the old denomination) or queued orders exist
+EntDenomChanged(s) == s.ent.p.denom # s.ent.totLockedDen \/ \E i \in DOMAIN s.ent.po : s.ent.po[i].den # s.ent.p.denom
 \* what a failed transaction may still change: fee, sequence, eFUND unlock (the pre-execution stage)
 MsgState(s) == <<s.ent.po, s.ent.rq, s.ent.aq, s.ent.wl, s.ent.next, s.ent.p, s.wrk.p, s.wrk.ch, s.wrk.next,
                  s.bcn.p, s.bcn.ch, s.bcn.next, s.str.p, s.str.s, s.supply, s.bal["stream"]>>
